@@ -139,6 +139,29 @@ fn stmt_explicit(out: &mut Out, input: &[u8], label: &str, sched: Option<&Sched>
 			// slice, so it must equal the explicit slice run.
 			if sched.is_some() && became_slice {
 				let as_slice = translate(input, &Supply::Slice, Some(f), to);
+				// ... and the explicit slice and reader runs may differ from each
+				// other only the way C02 allows (both fail, partial outputs
+				// prefix-comparable) or by a recorded finding of C02
+				let c02_conform = as_slice.ok() == same_mode.ok()
+					&& if as_slice.ok() { as_slice.output == same_mode.output } else { as_slice.output.starts_with(&same_mode.output) || same_mode.output.starts_with(&as_slice.output) };
+				let known_c02 = (f == Fmt::Json && crate::props::c02::json_has_unseparated_scalar(input))
+					|| (f == Fmt::Yaml && crate::props::c02::yaml_has_zero_documents(input))
+					|| (f == Fmt::Json && to == Fmt::Toml && (crate::props::c02::json_has_dup_key(input) || crate::props::c02::json_has_toml_datetime_key(input)));
+				if auto == as_slice && !c02_conform && !known_c02 {
+					out.fail(
+						"detected_eq_explicit",
+						"",
+						format!(
+							"input {} ({label}) {mode} detected as {} to {}: translate(None) gave {} (the handle became a slice during detection), but naming the format gives {} from the same reader — the explicit slice and reader runs differ outside every recorded finding",
+							hex(input),
+							f.name(),
+							to.name(),
+							auto.describe(),
+							same_mode.describe()
+						),
+					);
+					return;
+				}
 				if auto == as_slice {
 					out.count("explicit.agrees_with_slice_after_flip");
 					out.sample(format!(
